@@ -153,6 +153,10 @@ class MemoryStore(Store):
 
 class LocalFileStore(Store):
     def __init__(self, internal_dir: str, data_dir: str, create_dirs: bool = True):
+        # Relative directories are resolved once, when the store is created: the links
+        # placed in the data directory must not depend on the current working directory.
+        internal_dir = os.path.abspath(internal_dir)
+        data_dir = os.path.abspath(data_dir)
         self._root = internal_dir
         self._data_root = data_dir
         if not os.path.isdir(internal_dir):
